@@ -18,6 +18,7 @@ Open Scope N_scope.
 Inductive jv :=
 | VNull | VBool (b : bool)
 | VNum (z : Z)                   (* integer literal *)
+| VNegZero                       (* the literal -0: a number, but not an unsigned one for Go's decoder *)
 | VStr (s : str)                 (* escape-free printable ASCII *)
 | VArr (l : list jv)
 | VObj (m : list (str * jv)).
@@ -33,29 +34,19 @@ Definition c_semi : ascii := ";"%char.    Definition c_eq : ascii := "="%char.
 Definition print_int (z : Z) : str :=
   if (z <? 0)%Z then c_minus :: print_dec (Z.abs_N z) else print_dec (Z.to_N z).
 
+Definition print_member (pj : jv -> str) (kv : str * jv) : str :=
+  match kv with (k, x) => c_quote :: k ++ c_quote :: c_colon :: pj x end.
+
 Fixpoint print_json (v : jv) : str :=
   match v with
   | VNull => L "null"
   | VBool true => L "true"
   | VBool false => L "false"
   | VNum z => print_int z
+  | VNegZero => L "-0"
   | VStr s => c_quote :: s ++ [c_quote]
-  | VArr l =>
-      c_lbrack ::
-      (fix elems (l : list jv) : str :=
-         match l with
-         | [] => []
-         | [x] => print_json x
-         | x :: r => print_json x ++ c_comma :: elems r
-         end) l ++ [c_rbrack]
-  | VObj m =>
-      c_lbrace ::
-      (fix mems (m : list (str * jv)) : str :=
-         match m with
-         | [] => []
-         | [(k, x)] => c_quote :: k ++ c_quote :: c_colon :: print_json x
-         | (k, x) :: r => (c_quote :: k ++ c_quote :: c_colon :: print_json x) ++ c_comma :: mems r
-         end) m ++ [c_rbrace]
+  | VArr l => c_lbrack :: join c_comma (map print_json l) ++ [c_rbrack]
+  | VObj m => c_lbrace :: join c_comma (map (print_member print_json) m) ++ [c_rbrace]
   end.
 
 (** the scanner *)
@@ -195,7 +186,10 @@ Fixpoint parse_value (fuel : nat) (s : str) : option (jv * str) :=
             | None => None
             end
           else if Ascii.eqb c c_minus then
-            match scan_nat r with Some (n, r') => Some (VNum (- Z.of_N n), r') | None => None end
+            match scan_nat r with
+            | Some (n, r') => Some (if n =? 0 then VNegZero else VNum (- Z.of_N n), r')
+            | None => None
+            end
           else if is_digit c then
             match scan_nat (c :: r) with Some (n, r') => Some (VNum (Z.of_N n), r') | None => None end
           else if has_prefix (L "null") (c :: r) then Some (VNull, skipn 4 (c :: r))
@@ -246,14 +240,12 @@ Definition annotation_tree (rr : option jv) (l : list ipinfo) : jv :=
 Definition annotation (rr : option jv) (l : list ipinfo) : str := print_json (annotation_tree rr l).
 
 (** ---- galaxy daemon side ---- *)
-Fixpoint nodup_keys (l : list str) : bool :=
-  match l with
-  | [] => true
-  | k :: r => negb (existsb (str_eqb k) r) && nodup_keys r
-  end.
+(** a Go map filled member by member: a later member with the same name replaces the earlier one *)
+Definition dedup_last (l : list (str * str)) : list (str * str) :=
+  fold_right (fun kv acc => if existsb (fun x => str_eqb (fst x) (fst kv)) acc then acc else kv :: acc) [] l.
 
 (** parseExtendedCNIArgs: the members of "common" (field name matched case-insensitively) with
-    their raw texts.  [None] = error, or outside the modelled domain (duplicate member names). *)
+    their raw texts.  [None] = error, or outside the modelled domain (several "common" members). *)
 Definition ext_args (ann : str) : option (list (str * str)) :=
   match top_members ann with
   | None => None
@@ -265,8 +257,7 @@ Definition ext_args (ann : str) : option (list (str * str)) :=
           | VNull => Some []
           | VObj _ =>
               match top_members raw with
-              | Some cm => if nodup_keys (map (fun m => fst (fst m)) cm)
-                           then Some (map (fun m => (fst (fst m), snd m)) cm) else None
+              | Some cm => Some (dedup_last (map (fun m => (fst (fst m), snd m)) cm))
               | None => None
               end
           | _ => None
